@@ -38,6 +38,7 @@ class Contract(object):
         self.self_compose = kw.pop("self_compose", None)
         self.cover = kw.pop("cover", True)
         self.kf = kw.pop("kf", {})
+        self.order_insensitive = kw.pop("order_insensitive", False)   # emit `deterministic` obligations for ordered results of unordered iterations
         self.no_merge = kw.pop("no_merge", ())           # '*' or line numbers of ifs whose branches are kept as separate paths
         self.empties = kw.pop("empties", {})             # 'set'/'list'/'dict' -> type of untyped empty displays                    # clause -> known-finding condition
         if kw:
